@@ -140,9 +140,11 @@ SOURCES = [
   guard(id='g_acquire_seq', file=IMPL, sig=ACQ_SIG, c_sig='static void g_acquire_seq(struct guard* self, mptr* p_p, int order)',
         extra_post=[P_REF], must_fire={'A_LOAD': 2, 'subst:assign_after_throw_check': 1}),
   guard(id='g_acquire_if_equal', file=IMPL, sig=AIE_SIG, c_sig='static _Bool g_acquire_if_equal(struct guard* self, mptr* p_p, mptr expected, int order)',
-        extra_post=[P_REF],
-        must_fire={'A_LOAD': 3, 'method:guards': 1, 'method:set_era': 1, 'method:release_guard': 1, 'method:alloc_hazard_era': 1, 'self_call:reset': 2,
-                   'subst:assign_after_throw_check': 1}),
+        extra_post=[P_REF], cut_loops={0: 'AIE'},
+        must_fire={'A_LOAD': 3, 'method:get_era': 1, 'method:guards': 1, 'method:set_era': 1, 'method:release_guard': 1, 'method:alloc_hazard_era': 1, 'self_call:reset': 2,
+                   'subst:assign_after_throw_check': 1, 'cut_loop': 1}),
+  guard(id='g_acquire_if_equal_seq', file=IMPL, sig=AIE_SIG, c_sig='static _Bool g_acquire_if_equal_seq(struct guard* self, mptr* p_p, mptr expected, int order)',
+        extra_post=[P_REF], must_fire={'A_LOAD': 3, 'subst:assign_after_throw_check': 1}),
   guard(id='g_reset', file=IMPL, sig=r'void ' + G + r'reset\(\)', c_sig='static void g_reset(struct guard* self)',
         must_fire={'method:release_hazard_era': 1, 'method:reset': 1}),
   guard(id='g_do_swap', file=IMPL, sig=r'void ' + G + r'do_swap\(guard_ptr& g\)', c_sig='static void g_do_swap(struct guard* self, struct guard* g_p)',
@@ -162,9 +164,9 @@ KS_QUICK = [1, 2, 3, 5]
 GROUPS = [('slots_alloc', 'h_slots', 0, 0, {}), ('slots_rel_init', 'h_slots', 1, 2, {}), ('slots_k_allocs', 'h_slots', 3, 4, {}),
           ('g_ctor', 'h_guards', 0, 2, {}), ('g_assign', 'h_guards', 3, 4, {}), ('g_reset_swap_reclaim', 'h_guards', 5, 7, {}),
           ('g_acquire', 'h_guards', 8, 8, dict(unwindset=['g_acquire_seq.0:2'], note='no interference: the retry loop body runs at most twice (a third pass is excluded by the unwinding assertion)')),
-          ('g_acquire_if_equal', 'h_guards', 9, 9, {}),
+          ('g_acquire_if_equal', 'h_guards', 9, 9, dict(unwindset=['g_acquire_if_equal_seq.0:2'], note='no interference: the publish-and-revalidate loop body runs at most twice (a third pass is excluded by the unwinding assertion)')),
           ('int_acquire', 'h_int', 0, 0, dict(mode='INT', note='retry loop of acquire cut by invariant ACQ; source cell and era clock rewritten by the environment before each load of them')),
-          ('int_acquire_if_equal', 'h_int', 1, 1, dict(mode='INT')),
+          ('int_acquire_if_equal', 'h_int', 1, 1, dict(mode='INT', note='publish-and-revalidate loop of acquire_if_equal cut by invariant AIE; the source cell may be replaced (also by a younger object at the same address) and the era clock may advance before each load of them')),
           ] + [('dyn_alloc_B%d' % b, 'h_dyn', 0, 0, dict(dyn=True, nblk=b, note='dynamic strategy: %d block(s) of K slots exist beforehand, one more can be allocated' % b)) for b in (0, 1, 2)
           ] + [('dyn_init_B%d' % b, 'h_dyn', 1, 1, dict(dyn=True, nblk=b, note='dynamic strategy: initialize on a left-over record with %d block(s)' % b)) for b in (0, 1, 2)]
 RUNS = []
@@ -208,10 +210,12 @@ OBL = {
   'he.reclaim.retires_then_empty': 'reclaim: guard empty and slot released, retirement_era = era_clock before its increment by one, node pushed once onto the retire list with its deleter, scan iff threshold reached',
   'he.acquire.snapshot': 'acquire: the guard holds the value returned by the last load of the source performed during the call',
   'he.acquire.era_stable': 'when the result is non-null the slot publishes an era_clock value loaded after the pointer load that produced the result',
+  'he.acquire.protects': 'C01 protect side: the slot of the returned guard published, before the load that produced the result and unchanged since, an era e with construction_era(object seen by that load) <= e <= era_clock at that load - exactly what keeps scan from deleting it; the source may be replaced at any time, also by a younger object at the same address',
+  'he.acquire_if_equal.protects': 'the same for a successful acquire_if_equal',
   'he.acquire.sync': 'the pointer load that produced the result is at least acquire and no published era is unfenced at that load',
   'he.acquire.exc_safe': 'when acquire raises bad_hazard_era_alloc the guard names neither an unprotected object nor a slot it does not count in; the chain was empty',
   'he.acquire.null_holds_no_slot': 'acquire of a null pointer leaves the guard without a hazard era',
-  'he.acquire_if_equal.iff': 'acquire_if_equal returns true exactly when the last value loaded equals expected (then the guard holds it); otherwise the guard is empty',
+  'he.acquire_if_equal.iff': 'acquire_if_equal returns true exactly when the last value it loaded from the source equals expected (then the guard holds it); otherwise the guard is empty',
   'he.acquire_if_equal.exc_safe': 'when acquire_if_equal raises bad_hazard_era_alloc the guard names neither an unprotected object nor a slot it does not count in (F9)',
   'he.dyn.never_throws': 'dynamic strategy: alloc_hazard_era never throws',
   'he.dyn.new_block': 'a new block of max(K, total/2) slots is allocated exactly when the chain is empty and nothing can be shared: accounted in total_number_of_hes and number_of_active_hes, linked in front of the block list, its slots form the new chain, old slots untouched',
@@ -231,9 +235,9 @@ UNIT = dict(
                'dynamic strategy shape: at most two blocks (K and K slots) exist before the call'],
   sources=SOURCES, runs=RUNS,
   obligations={k: dict(deciding=True, text=v) for k, v in OBL.items()},
-  loop_obligation={'ACQ': 'he.acquire.era_stable'},
-  replays={k: dict(src='replay_guard.cpp') for k in ['he.count.exact', 'he.guard_ops.preserve_inv', 'he.guard_ops.others_intact', 'he.guard_ops.holds_slot_iff_protecting',
+  loop_obligation={'ACQ': 'he.acquire.era_stable', 'AIE': 'he.acquire_if_equal.protects'},
+  replays=dict({'he.acquire_if_equal.protects': dict(src='native_acquire_if_equal_aba.cpp', no_inputs=True)}, **{k: dict(src='replay_guard.cpp') for k in ['he.count.exact', 'he.guard_ops.preserve_inv', 'he.guard_ops.others_intact', 'he.guard_ops.holds_slot_iff_protecting',
                                                      'he.guard_ops.empty_holds_no_slot', 'he.acquire.exc_safe', 'he.acquire_if_equal.exc_safe', 'he.acquire.null_holds_no_slot',
-                                                     'he.release.returns_slot', 'he.alloc.exhausted_throws']},
+                                                     'he.release.returns_slot', 'he.alloc.exhausted_throws']}),
   canaries=['acquire.left_shared', 'acquire.null', 'acquire.reuse_own', 'acquire.share_last', 'acquire.throw', 'aie.false', 'aie.throw', 'aie.true', 'aie.true_null', 'alloc.first_use', 'alloc.fresh', 'alloc.share', 'alloc.throw', 'alloc_k.done', 'assign_copy.other_slot', 'assign_copy.same_slot', 'assign_copy.self', 'assign_move.other', 'assign_move.self', 'copy.empty', 'copy.shared', 'ctor_ptr.fresh', 'ctor_ptr.null', 'ctor_ptr.shared', 'ctor_ptr.throw', 'dyn.new_block', 'dyn.no_new_block', 'initialize.done', 'int.acquire.new_slot', 'int.acquire.nonnull', 'int.acquire.throw', 'int.aie.false_first', 'int.aie.false_second', 'int.aie.throw', 'int.aie.true', 'move.empty', 'move.held', 'reclaim.noscan', 'reclaim.scan', 'release.null', 'release.shared', 'release.to_zero', 'reset.dtor', 'reset.empty', 'reset.shared', 'reset.to_zero', 'slot.era', 'slot.link', 'swap.done'],
 )
